@@ -184,7 +184,8 @@ def v1_valid_grid(rng, big=False):
     n = 2 if r < 0.5 else rng.randrange(2, 14)
     if big and r > 0.95:
         n = rng.choice([64, 5000, 32768, 127, 128, 255, 256, 257, 1024, 4096, 16384, 32767])
-    idx = rng.choice([-4, 0, -100, 7, rng.randrange(-10 ** 6, 10 ** 6), 2 ** 30, -2 ** 30, 2 ** 31 - 70000, -2 ** 31])
+    # (the marker index is a 32-bit int in the public struct: the whole grid has to stay below 2^31)
+    idx = rng.choice([-4, 0, -100, 7, rng.randrange(-10 ** 6, 10 ** 6), 2 ** 30, -2 ** 30, 2 ** 31 - 70000 - 5 * n if n > 13 else 2 ** 31 - 70000, -2 ** 31])
     off = rng.uniform(-1e6, 1e6)
     g = []
     for _ in range(n):
